@@ -1481,6 +1481,8 @@ pub fn run(ctx: &Ctx, st: &mut Stats) {
     LISTING.run_list_par(ctx, st, list);
     // O2 random
     LISTING.run_random(ctx, st, ctx.tier.pick(15_000, 750_000), arb_list_case);
+    // coverage-guided tier over the quote round trip
+    crate::fuzzing::tier_stage(ctx, st, &[("c07_quote", 40_000)]);
 }
 
 pub fn replay(driver: &str, case: &serde_json::Value) -> Result<(Outcome, Option<&'static str>), String> {
